@@ -556,6 +556,29 @@ fn clause_script_cells(t: &mut Tally<'_>) {
             cell(&format!("Read::read_exact/{k} interrupts/{}", if ordered { "next_call chain" } else { "some_call chain" }), got, format!("{want} Ok(())"));
         }
     }
+    // a scripted tail that the provided method never asks for: the plain struct is left with an
+    // unconsumed script entry, the mock with an unmet expectation (an any-order chain ending in an
+    // unquantified response after then() expects at least one more call)
+    for (len, tail_reached) in [(1usize, false), (2, true)] {
+        let got = catch(|| {
+            fn one(_: &mut Unimock, b: &mut [u8]) -> io::Result<usize> {
+                b[0] = 7;
+                Ok(1)
+            }
+            fn two(_: &mut Unimock, b: &mut [u8]) -> io::Result<usize> {
+                b[0] = 8;
+                Ok(1)
+            }
+            let mut u = Unimock::new(ReadMock::read.each_call(matching!(_)).answers(&one).once().then().answers(&two));
+            let mut buf = vec![0u8; len];
+            let res = u.read_exact(&mut buf);
+            let verdict = catch(move || drop(u));
+            let unmet = matches!(&verdict, Err(msg) if msg.contains("at least 2 calls") && msg.contains("matched 1 call"));
+            format!("{} {buf:?} {}", show(&res), if verdict.is_ok() { "script consumed" } else if unmet { "script entry left over" } else { "other failure" })
+        });
+        let want = format!("Ok(()) {:?} {}", if len == 1 { vec![7u8] } else { vec![7u8, 8] }, if tail_reached { "script consumed" } else { "script entry left over" });
+        cell(&format!("Read::read_exact({len} byte(s))/each_call once().then() open tail"), got, want);
+    }
     // DelayNs::delay_ms over a delay_ns that is configured once with a value and a lower bound
     for ms in [1u32, 4_294, 10_000] {
         let sh = script(&[]);
